@@ -1,4 +1,5 @@
-(* C14 -- an out-of-range hedId on a NESTED library tag of the bundled score_2.0.0 (finding C14-F2) *)
+(* C14 -- an out-of-range hedId on a NESTED library tag of the bundled score_2.0.0 (finding C14-F2, repaired by
+   fix commit 5844fee) *)
 From Coq Require Import List NArith ZArith String.
 From HV Require Import Base.Res Base.Str Base.C14Base Gen.ComplianceTables Model.Compliance
      Proofs.ComplianceProofs Proofs.C14ExCommon Gen.C14_Env.
@@ -28,3 +29,13 @@ Lemma ex_hed_id_out_of_range_reported :
   res_codes (check_compliance fixed_all env_score200 true seeded_hed_id_score_200)
   = Ok [kind_code K_SCHEMA_HED_ID_INVALID].
 Proof. vm_cast_no_check (@eq_refl (res (list str)) (Ok [kind_code K_SCHEMA_HED_ID_INVALID])). Qed.
+
+(* the nested library tag THROUGH C14_seeded_hed_id_range: all its premises hold of the loaded seeded schema *)
+Lemma ex_hed_id_through_theorem :
+  exists L issues, load env_score200 seeded_hed_id_score_200 = Ok L
+                   /\ check_loaded fixed_all env_score200 true L = Ok issues
+                   /\ In (kind_code K_SCHEMA_HED_ID_INVALID) (codes issues).
+Proof.
+  apply (hed_id_through_theorem env_score200 seeded_hed_id_score_200 SecTags n_rpp).
+  vm_cast_no_check (@eq_refl bool true).
+Qed.
